@@ -64,6 +64,8 @@ def build_config(case: dict[str, Any]) -> EnOptConfig:
     }
     if case["max_iterations"] is not None:
         cfg["optimizer"]["max_iterations"] = case["max_iterations"]
+    if case.get("max_functions") is not None:  # the evaluation budget is ropt's own business, it does not change the iteration limit
+        cfg["optimizer"]["max_functions"] = case["max_functions"]
     if case["mask"] is not None:
         cfg["variables"]["mask"] = case["mask"]
     if case.get("types") is not None:
@@ -336,6 +338,7 @@ def exhaustive_shard(item: dict[str, Any]) -> Collector:
                         continue
                     case = base_case(n, method, options, maxit)
                     case["spelling"] = SPELLINGS[count % len(SPELLINGS)]
+                    case["max_functions"] = (None, 1000)[(count // len(SPELLINGS)) % 2]
                     case["nl"] = [list(kind_bounds(k, 0.25 * (i + 1), 1.0 + i)) for i, k in enumerate(kinds[:c_n])]
                     case["lin"] = [list(kind_bounds(k, -0.5 + 0.3 * i, 2.0)) for i, k in enumerate(kinds[c_n:])]
                     case["a_nl"] = [((2 * i + 3 * j) % 5 - 2.0) or 1.0 for i in range(c_n) for j in range(n)]
@@ -384,6 +387,7 @@ def hypothesis_shard(item: dict[str, Any]) -> Collector:
         method = draw(st.sampled_from(METHODS + ["slsqp", "cobyla", "differential_evolution", "slsqp"]))
         case = base_case(n, method, draw(st.sampled_from(list(OPTIONS))), draw(st.sampled_from([None, None, 7, 1])))
         case["spelling"] = draw(st.sampled_from(SPELLINGS))
+        case["max_functions"] = draw(st.sampled_from([None, None, 1000, 3]))
         mask = None
         if n > 1 and draw(st.booleans()):
             mask = draw(st.lists(st.booleans(), min_size=n, max_size=n))
